@@ -18,6 +18,30 @@ def _hist(h):
     return h, rows, (r.stderr[-400:] if len(rows) != len(h) else "")
 
 
+def rule_no_process_settings():
+    """C06.S.no_process_settings: einx code never changes interpreter- or library-wide settings (recursion limit, warning filters, numpy error state / print options, locale, signal
+    handlers, trace functions, global RNG seeds, os.environ): such a change outlives the call that made it and alters later calls"""
+    import ast
+    BANNED = {"sys.setrecursionlimit", "sys.settrace", "sys.setprofile", "sys.setswitchinterval", "warnings.simplefilter", "warnings.filterwarnings", "warnings.resetwarnings",
+              "np.seterr", "np.seterrcall", "np.set_printoptions", "numpy.seterr", "numpy.set_printoptions", "locale.setlocale", "signal.signal", "random.seed", "np.random.seed",
+              "numpy.random.seed", "os.putenv", "os.unsetenv", "gc.disable", "gc.enable", "gc.set_threshold", "threading.setprofile", "threading.settrace", "faulthandler.enable"}
+    sites, failing = [], []
+    for f in frame.all_files():
+        t = ast.parse(open(f).read())
+        r = frame.rel(f)
+        for n in ast.walk(t):
+            if isinstance(n, ast.Call) and ast.unparse(n.func) in BANNED:
+                site = f"{r}:{n.lineno}:{ast.unparse(n)[:60]}"
+                sites.append(site)
+                failing.append(site + " (changes a process-wide setting)")
+            if isinstance(n, (ast.Assign, ast.AugAssign, ast.Delete)):
+                tg = n.targets if not isinstance(n, ast.AugAssign) else [n.target]
+                for tt in tg:
+                    if isinstance(tt, ast.Subscript) and ast.unparse(tt.value) == "os.environ":
+                        failing.append(f"{r}:{n.lineno}: writes os.environ")
+    return not failing, sites, failing
+
+
 def run(tier, seed):
     chk = Check("C06", tier, seed, "other")
     from ..kernels import c06_keys, c06_freeze, c06_to_tracer
@@ -27,6 +51,8 @@ def run(tier, seed):
     chk.add_rule("C06.S.shared", ok, sites, failing, detail="no call-time writes to module-level state other than the registry (under its lock), functools caches and thread-locals")
     ok, sites, failing = frame.rule_tls(TLS)
     chk.add_rule("C06.S.tls", ok, sites, failing)
+    ok, sites, failing = rule_no_process_settings()
+    chk.add_rule("C06.S.no_process_settings", ok, sites, failing)
     env = dict(os.environ, PYTHONPATH=(os.environ.get("EINX_VERIF_REPO", "") + os.pathsep + ROOT).lstrip(os.pathsep))
     n = int(subprocess.run([sys.executable, "-m", "vf.props._c06child", '"count"'], capture_output=True, text=True, env=env, cwd=ROOT).stdout.strip() or 0)
     if n == 0:
